@@ -47,6 +47,13 @@ def cases(tier, rng):
         for _ in range(rng.choice([1, 1, 2])):
             steps.insert(rng.randrange(len(steps) + 1), rng.choice(comp))
         seqs.append(tuple(steps))
+    # beyond the small shapes: 8-20 variable-variable steps among 6-14 variables whose ids collide modulo 64 / 256 / 65536
+    for ids in ([3, 5, 67, 69, 131, 133], [2, 258, 514, 66, 130, 6, 322, 70], [1, 2, 3, 65, 66, 67, 129, 130, 131, 257, 258, 259, 65537, 65539], list(range(1, 15))):
+        vs = [var(i, "$V%d" % i) if i > 3 else [X, Y, Z][i - 1] for i in ids]
+        for _ in range(25 if tier == "quick" else 600):
+            k = rng.choice([8, 10, 12, 16, 20])
+            steps = [(rng.choice(vs), rng.choice(vs)) if rng.random() < 0.85 else (rng.choice(vs), rng.choice([atom("a"), atom("b"), integer(1)])) for _ in range(k)]
+            seqs.append(tuple(steps))
     seen = set()
     for s in seqs:
         if s in seen: continue
@@ -140,6 +147,7 @@ RULE = ("all sequences of length <= 2 (quick: plus 6000 random of length 3 and 3
         "variable-variable steps; thorough: all 46656 of length 3 plus 150000 longer) of unifications among $X,$Y,$Z, a, b, 1 "
         "- no occurs check is ever needed -, and sequences that mix these with steps between compound patterns aliasing two variables "
         "([a | $U] = [a | $V], [$U] = [$V], f($U) = f($V), g($U, a) = g($V, a), ... - in correct code these bind variable to variable only), "
+        "and sequences of 8-20 steps among up to 14 variables whose ids collide modulo 64 / 256 / 65536, "
         "each followed by resolving q($X,$Y,$Z). "
         "Relations checked on the implementation's own results: no result diverges or panics; no cycle in the "
         "returned bindings; a last step between two already-aliased variables returns the previous set unchanged. "
